@@ -4,6 +4,15 @@ import json
 props = [json.loads(l) for l in open('/verif/properties.jsonl')]
 ASSUME = "Trusted base: the simulator (simrt scheduler, simetcd/simnet/simdisk/simtikv models), the go/ast rewrite (R1-R5) of a scratch copy of /repo, the deterministic-runtime overlay, and the oracle code. etcd, gRPC, TiKV and the OS clock are models; interleavings are explored at seams only; sampling, not proof."
 claimed = {
+ "C06": dict(level="exploration", engine="e2", design="7/C06",
+   text="A bootstrapped real PD leader; a TiKV model produces arbitrary split / merge / conf-change / leader-change histories; fresh and re-delivered (delayed, duplicated, reordered) heartbeats are handled by the real RaftCluster.HandleRegionHeartbeat one at a time or from 2-4 concurrent streams interleaved at lock / storage-call granularity. Monitors after every scheduler step (read through the locked API, deferred while a parked task holds the lock): served version / conf_ver / term of a region id never decrease while it stays served; no two served regions overlap. Sequential mode: a stale heartbeat is refused and leaves the cache unchanged, a fresh one is accepted, displaced regions are gone from cache and (after flush) from storage.",
+   technique="deterministic simulation with step-wise cache invariants and a sequential refinement oracle"),
+ "C07": dict(level="exploration", engine="e2", design="7/C07",
+   text="After every change of the region set (arbitrary put/remove storms on a stand-alone BasicCluster over key spaces of 6..200 keys, and the heartbeat histories produced by the simulated cluster) a linear-scan reference over GetRegions() is compared with SearchRegion, SearchPrevRegion, ScanRange with limits, GetOverlaps, GetAdjacentRegions, index size = map size, per-store leader / follower / learner / pending counts and sizes, and Rand*Region picks. The property has no schedule or fault of its own: simulation contributes the histories and the step-wise monitoring (honest scope, DESIGN.md).",
+   technique="deterministic simulation producing operation histories, checked against a linear-scan reference model after every step"),
+ "C13": dict(level="fault_enumeration", engine="e2", design="7/C13",
+   text="Groups of 10 runs share one seeded sequence of rule operations (single, batch with delete-by-prefix, group, bundle) on the real RuleManager over real core.Storage on the simulated etcd; run k makes the k-th storage write of rule data fail (clean or applied-but-reported-failed) and retries. After every accepted update a naive reference rule list (documented order / override semantics) must be valid and agree on every observable (rules by key, rules for region ranges, split keys, all rules, groups), and a fresh RuleManager loaded from storage must serve the same; rejected / failed updates leave the served digest unchanged; retry converges.",
+   technique="deterministic simulation with an enumerated storage failure at each write of each update and a reference-model refinement check"),
  "C16": dict(level="exploration", engine="e2", design="7/C16",
    text="Two modes under the seeded scheduler: the real change-log buffer (capacities 1..300) driven by random record bursts / reads inside, at the edges and outside the window / resets / restarts and compared record by record with a slice model; and a leader-side and a follower-side real RegionSyncer connected through the simulated network (0..333 regions, with/without leaders, flow statistics; full sync, then incremental changes with follower stream restarts). Oracles: every batch the leader sends pairs each region with the leader peer and flow it holds for that version; the follower ends with exactly the newest record delivered for every region; a full sync covers every region.",
    technique="deterministic simulation with a reference log model and send/deliver history oracles on the simulated stream"),
